@@ -57,7 +57,9 @@ for k in (1, 2, 3, 4):
             if sorted(log) != sorted(regs):
                 w = dict(check="every callback registered before or after settlement runs exactly once", history=ops, registered=regs, ran=log)
                 break
-            if log != regs and ("].2" in obl and "_notify/at[" in obl):
+            reentrant = any(len(o) > 2 for o in ops)
+            # the recorded known finding concerns re-entrant registrations only; plain histories must always be in order
+            if log != regs and (not reentrant or ("].2" in obl and "_notify/at[" in obl)):
                 w = dict(check="callbacks run in registration order", history=ops, registered_in_order=regs, ran_in_order=log)
                 scenario = "order"
                 break
